@@ -86,6 +86,19 @@ impl GameState {
     }
 }
 
+#[cfg(daniel729_chess_verif)]
+impl GameState {
+    /// Verification-only: build a state from its raw byte.
+    pub fn verif_from_bits(bitfield: u8) -> Self {
+        Self { bitfield }
+    }
+
+    /// Verification-only: the raw byte.
+    pub fn verif_bits(self) -> u8 {
+        self.bitfield
+    }
+}
+
 impl Default for GameState {
     /// Default state is no en passant square, and no castling rights
     fn default() -> Self {
